@@ -8,9 +8,10 @@
      hasv,v  var v <vt> = c; println(v)  re-chunked as a BigInt
      dtobs   dynamic type of  var i interface{} = c
 
-   The reference value/verdict is recomputed here by TLC from `expr` (Const.tla part I); the echoed
-   src/reflit/vt/dt must be what the reference derives from expr (Bound) - otherwise the observation does
-   not belong to the judged expression (machinery failure, reported with cause "binding").
+   The reference value/verdict is recomputed here by TLC from `expr` (Const.tla part I).  src/reflit/vt/dt were
+   computed by the same reference in MC_Const (checks/c02.py verifies that every observation echoes its exported
+   case); Bound re-derives them for the records reported as bad - a bad record that is not bound is a machinery
+   failure, not a verdict.
 
    Property-level clauses (the statement of C02):
      REJECT   reference rejects  <=>  the build of `const c = <expr>` fails with a scriggo.BuildError
@@ -32,7 +33,6 @@ ValueOk(r, ref) ==
 \* which clause failed: "" = none
 Fail2(r, ref) ==
   IF ref.st = "any" THEN ""                                             \* not decided by the reference: skipped
-  ELSE IF ~Bound(r, ref) THEN "binding"
   ELSE IF ref.st = "rej" THEN (IF r.builds = "builderr" THEN "" ELSE IF r.builds = "ok" THEN "accepts-invalid" ELSE "crash")
   ELSE IF r.builds = "builderr" THEN "rejects-valid"
   ELSE IF r.builds # "ok" THEN "crash"
@@ -45,13 +45,40 @@ Fail2(r, ref) ==
 Fail(r) == Fail2(r, Ref(r))
 RecOk(r) == Fail(r) = ""
 
-\* signature: the failed clause + the root operation + the reference types of its operands
-TyOf(t) == LET e == Eval(t) IN IF e.st = "ok" THEN e.ty ELSE e.st
-Sig(r) == LET t == r.expr IN
-          [fam |-> "const", fail |-> Fail(r),
-           root |-> IF t.k = "lit" THEN "lit" ELSE IF t.k = "conv" THEN t.ty ELSE t.op,
-           ta |-> IF t.k = "lit" THEN "-" ELSE TyOf(t.a),
-           tb |-> IF t.k = "bin" THEN TyOf(t.b) ELSE "-"]
+\* signature: the failed clause, the root operation, the (coarse) reference types of its operands, and whether a
+\* float that float64 cannot hold exactly is involved (as a literal of the expression or as the reference value)
+OpName(op) == CASE op = "+" -> "add" [] op = "-" -> "sub" [] op = "*" -> "mul" [] op = "/" -> "quo" [] op = "%" -> "rem"
+                [] op = "&" -> "and" [] op = "|" -> "or" [] op = "^" -> "xor" [] op = "&^" -> "andnot" [] op = "<<" -> "shl" [] op = ">>" -> "shr"
+                [] op = "==" -> "eql" [] op = "!=" -> "neq" [] op = "<" -> "lss" [] op = "<=" -> "leq" [] op = ">" -> "gtr" [] op = ">=" -> "geq"
+                [] op = "&&" -> "land" [] op = "||" -> "lor" [] op = "!" -> "not" [] OTHER -> "other"
+Coarse(ty) == CASE ty \in SignedTypes -> "sint" [] ty \in UnsignedTypes -> "uint" [] ty \in FloatTypes -> "float"
+                [] ty \in ComplexTypes -> "complex" [] OTHER -> ty
+KindOf(t) == LET e == Eval(t) IN IF e.st = "ok" THEN Coarse(e.ty) ELSE e.st
+OffF64(d) == LET x == RoundTo(d, "float64") IN x.ovf \/ x.v # d
+RECURSIVE LitOff(_)
+LitOff(t) == CASE t.k = "lit" -> t.lk \in {"float", "imag"} /\ OffF64(DyMk(t.n, t.e))
+               [] t.k = "bin" -> LitOff(t.a) \/ LitOff(t.b)
+               [] OTHER -> LitOff(t.a)
+RefOff(ref) == ref.st = "ok" /\ ref.chk /\ ref.v.k = "n" /\ TClass(ref.ty) \in {"float", "complex"}
+               /\ (OffF64(ref.v.re) \/ OffF64(ref.v.im))
+OpKind(t) == IF t.k # "bin" THEN t.k
+             ELSE IF t.op \in ArithOps THEN "arith" ELSE IF t.op \in IntOnlyOps THEN "intonly" ELSE IF t.op \in OrdOps THEN "order"
+             ELSE IF t.op \in EqOps THEN "eq" ELSE IF t.op \in LogicOps THEN "logic" ELSE "shift"
+\* the most general numeric class among the operands ("complex" > "float" > "int"), "other" for bool/string/rejected operands
+OperandClass(ka, kb) ==
+  LET K == {ka, kb} IN
+  IF K \cap {"complex", "u.complex"} # {} THEN "complex"
+  ELSE IF K \cap {"float", "u.float"} # {} THEN "float"
+  ELSE IF K \subseteq {"sint", "uint", "u.int", "u.rune", "-"} THEN "int" ELSE "other"
+Sig(r) == LET t == r.expr ref == Ref(r)
+              ka == IF t.k = "lit" THEN "-" ELSE KindOf(t.a)
+              kb == IF t.k = "bin" THEN KindOf(t.b) ELSE "-" IN
+          [fam |-> "const", fail |-> Fail2(r, ref), opk |-> OpKind(t), oc |-> OperandClass(ka, kb),
+           typed |-> IF {ka, kb} \cap {"sint", "uint", "float", "complex", "bool", "string"} # {} THEN 1 ELSE 0,
+           root |-> IF t.k = "lit" THEN "lit" ELSE IF t.k = "conv" THEN "conv" ELSE IF t.k = "un" THEN (IF t.op = "-" THEN "neg" ELSE IF t.op = "+" THEN "pos" ELSE IF t.op = "^" THEN "cpl" ELSE "not") ELSE OpName(t.op),
+           to |-> IF t.k = "conv" THEN Coarse(t.ty) ELSE "-",
+           ka |-> ka, kb |-> kb,
+           xf64 |-> IF LitOff(t) \/ RefOff(ref) THEN 1 ELSE 0]
 
 (* ---- diagnostic: reason class of the build error vs the reference's reason class (drift, never a verdict) ---- *)
 RECURSIVE CHasAt(_, _, _, _)
@@ -80,7 +107,8 @@ Next == /\ l <= Len(Obs) /\ l' = l + 1
            /\ ndrift' = ndrift + (IF Drift2(Obs[l], ref) THEN 1 ELSE 0)
 Done == l = Len(Obs) + 1 =>
           /\ ndJsonSerialize("bad.ndjson",
-               [j \in 1..Len(badidx) |-> [k |-> badidx[j], id |-> Obs[badidx[j]].id, sig |-> Sig(Obs[badidx[j]]), nbad |-> nbad]])
+               [j \in 1..Len(badidx) |-> [k |-> badidx[j], id |-> Obs[badidx[j]].id, sig |-> Sig(Obs[badidx[j]]), nbad |-> nbad,
+                                       bound |-> IF Bound(Obs[badidx[j]], Ref(Obs[badidx[j]])) THEN 1 ELSE 0]])
           /\ ndJsonSerialize("stats.ndjson", <<[records |-> Len(Obs), nbad |-> nbad, ref_undefined |-> nskip, reason_class_drift |-> ndrift]>>)
 Consumed == TLCGet("stats").diameter - 1 = Len(Obs)
 =============================================================================
